@@ -234,6 +234,20 @@ func (u *Unit) discharge(o *Oblig, text string, dir string, timeoutS int, which 
 			timeoutS = 3
 		}
 	}
+	// Stage 1: most obligations are decided by one solver in well under a second;
+	// trying z3 5.1.0 alone first (3 s) uses a third of the processes. Only an
+	// obligation it does not prove is raced over the whole portfolio.
+	if !o.expectFail && len(which) > 1 && timeoutS > 3 {
+		r := runSolver(context.Background(), which[0], file, 3)
+		if r.status == "unsat" {
+			o.result, o.solver, o.timeS = "proved", r.solver, r.timeS
+			return
+		}
+		if r.status == "sat" {
+			o.result, o.solver, o.timeS, o.output = "failed", r.solver, r.timeS, r.output
+			return
+		}
+	}
 	ctx, cancel := context.WithCancel(context.Background())
 	defer cancel()
 	ch := make(chan solveResult, len(which))
